@@ -557,7 +557,7 @@ class Read(_Forked):
     def crashed(self, c):
         arr = build_array(c["tbl"])
         names = [f[0] for f in c["tbl"]["fields"]]
-        fullc = [[_cells_of(arr[nm], i) for nm in names] for i in range(arr.shape[0])]
+        fullc = [[_cells_of(arr[nm], i) for nm in names] for i in range(min(arr.shape[0], 5000))]
         return {"out": CRASH, "full": fullc, "data": "", "nrows": int(arr.size)}
 
     def classify(self, c, o, v):
@@ -581,22 +581,36 @@ class Read(_Forked):
         want = names if c["cols"][0] == "none" else ([c["cols"][1]] if c["cols"][0] == "name" else
                                                      [n for n in names if n in c["cols"][1]])
         full = ent["full"]
-        fullc = [[_cells_of(full[nm], i) for nm in full.dtype.names] for i in range(full.shape[0])]
+        big = full.shape[0] > 5000
+        if big:
+            # very many rows: the full read is checked against the file bytes here and derived from them inside Coq
+            fullc = None
+            same = (c["delim"] is None and full.tobytes() == ent["data"])
+        else:
+            fullc = [[_cells_of(full[nm], i) for nm in full.dtype.names] for i in range(full.shape[0])]
         try:
             res = do_request(c, ent)
             out = ["ok", canon_value(res, full, want)]
         except Exception as e:  # noqa
             out = ["err", core.errclass(e), "%s: %s" % (type(e).__name__, str(e)[:160])]
-        return {"out": out, "full": fullc, "data": ent["data"].hex(), "nrows": ent["nrows"]}
+        r = {"out": out, "full": fullc, "data": ent["data"].hex(), "nrows": ent["nrows"]}
+        if big:
+            r["full_is_data"] = bool(same)
+        return r
 
     def term(self, c, o):
         names = [f[0] for f in c["tbl"]["fields"]]
+        if o["full"] is None:
+            if not o.get("full_is_data"):
+                return "3"          # the full read of a binary file does not have the bytes of the file
+            return "v_req_bigbin %s %s %s" % (crfile(c["tbl"], c["delim"], bytes.fromhex(o["data"]), o["nrows"]),
+                                              crequest(c, names), cout(o["out"]))
         pt = oracle_table(c["tbl"]) if c["delim"] is not None else []
         return "v_req %s %s %s %s %s" % (ctab3(pt), crfile(c["tbl"], c["delim"], bytes.fromhex(o["data"]), o["nrows"]),
                                          crequest(c, names), cgrid(o["full"]), cout(o["out"]))
 
     def show(self, c):
-        if len(c["tbl"]["rows"][0]) > 4000:
+        if len(c["tbl"]["rows"][0]) > 4000 or len(c["tbl"]["rows"]) > 5000:
             return None                                   # wide rows: the replay would be megabytes of model output
         got = _run_forked(lambda x: (lambda e: {"data": e["data"].hex(), "nrows": e["nrows"]})(prepare(x["tbl"], x["delim"], x["api"])),
                           [c], "show")[0]
@@ -615,6 +629,8 @@ class Read(_Forked):
         if v[0] == "none":
             return True
         n, nc = o["nrows"], len(c["tbl"]["fields"])
+        if v[0] == "table" and o["full"] is None:
+            return True
         if v[0] == "table":
             sel = len(v[2]) * len(v[1])
         elif v[0] == "plain":
@@ -860,6 +876,29 @@ def gen_wide_text(ctx, r, round):
     return cs
 
 
+def gen_many_rows(ctx, r, round):
+    """binary tables with more than 2^15 / 2^16 rows (row counts and offsets beyond 16-bit ranges), small rows"""
+    cs = []
+    if round != 0:
+        return cs
+    for n in ((65537,) if ctx.quick() else (32769, 65537, 70001)):
+        fields = [["a", "<i2", []], ["s", "S1", []]]
+        raw = b"".join(struct.pack("<h", (i * 7) % 30011 - 15000) + bytes([97 + i % 26]) for i in range(n))
+        tbl = {"fields": fields, "rows": [raw[3 * i:3 * i + 3].hex() for i in range(n)]}
+        sels = [["scalar", -1], ["scalar", 32768], ["list", [0, 32767, 32768, n - 2, n - 1]], ["list", [n - 1, 0]],
+                ["slice", n - 6, None, None], ["slice", None, None, 32768], ["slice", -3, None, None], ["slice", 32766, 32770, None],
+                ["list", [n]], ["slice", 65534, n + 2, 2]]
+        for rows in sels:
+            bracket = rows[0] == "slice"
+            style, api = r.choice([s for s in STYLES if (s[0] in ("SGetitem", "SChain")) == bracket])
+            cols = r.choice([["none"], ["name", "a"], ["list", ["s"]], ["list", ["s", "a"]]])
+            c = complete(r, tbl, None, style, api, rows, cols)
+            c["split"] = c["reduce"] = False
+            c["family"] = "many-rows"
+            cs.append(c)
+    return cs
+
+
 def gen_long_rowlists(ctx, r, round):
     """tables of 7..12 rows, row lists of length 4..6 (property quantifier: every subset and ordering of row indices)"""
     cs = []
@@ -969,7 +1008,7 @@ def gen_cases(ctx, round):
                 for cols in (["none"], ["list", names[:1]], ["list", names[:2]], ["name", names[-1]]):
                     for style, api in (("SSfRead", "sfile"), ("SSfRead", "sfile_fn"), ("SSfReadFields", "sfile"),
                                        ("SRead", "recfile"), ("SReadFields", "recfile"), ("SChainRead", "recfile")):
-                        for split, reduce in ((True, False), (False, True), (False, False)):
+                        for split, reduce in ((True, False), (False, True), (False, False), (True, True)):
                             if reduce and not style.startswith("SSf"):
                                 continue
                             if style == "SChainRead" and cols[0] == "none":
@@ -999,6 +1038,7 @@ def gen_cases(ctx, round):
                                    r.choice(cols_all)))
     cs += gen_long_rowlists(ctx, r, round)
     cs += gen_wide_text(ctx, r, round)
+    cs += gen_many_rows(ctx, r, round)
     for c in cs:
         c.setdefault("family", "gen")
     return cs
@@ -1101,6 +1141,11 @@ def run_history(c):
                     if not isinstance(hdr, dict) or hdr.get("_SIZE") != arr.size:
                         res = "bad header"
                 out = ["ok", canon_value(res, arr, want)]
+                if st.get("scribble"):
+                    # the caller overwrites what it was given; later calls must not see that
+                    for a in (res if isinstance(res, tuple) else (res,)):
+                        if isinstance(a, np.ndarray) and a.size and a.flags.writeable:
+                            a.view("u1").reshape(-1)[:] = 0xAA if a.flags.c_contiguous else 0
             except Exception as e:  # noqa
                 out = ["err", core.errclass(e), "%s: %s" % (type(e).__name__, str(e)[:160])]
             outs.append({"out": out, "full": fullc, "data": data.hex(), "nrows": int(arr.size)})
@@ -1214,6 +1259,17 @@ def gen_histories(ctx, round):
                 _step(r, tbl, delim, "SSfRead", "sfile", rand_rows(r, n, False), r.choice(sels)),
                 _step(r, tbl, d2, "SSfRead", "sfile", rand_rows(r, n, False), r.choice(sels)),
                 _step(r, tbl, delim, "SChain", "sfile", rand_rows(r, n, True), ["list", names[:1]])]})
+        # the caller scribbles over the RETURNED arrays and repeats the call (results must not be shared or cached)
+        for _ in range(2):
+            style, api = r.choice(STYLES)
+            rows = rand_rows(r, n, style in ("SGetitem", "SChain"))
+            cols = r.choice(sels)
+            seq = []
+            for k in range(3):
+                st = _step(r, tbl, delim, style, api, rows, cols, split=(k == 0 and r.random() < 0.3))
+                st["scribble"] = True
+                seq.append(st)
+            hs.append({"mode": r.choice(["plain", "object"]), "what": "returned-array-overwritten", "steps": seq})
         # (a) the same argument objects, changed in place between the calls
         for _ in range(2):
             ln = r.randint(1, 3)
@@ -1289,13 +1345,11 @@ def regenerate(ctx):
     ctx.notes.append("Gen.v regenerated from the source differs from the committed text: recompiling C02 against it")
     ov = os.path.join(ctx.work, "overlay", "theories")
     os.makedirs(os.path.join(ov, "C02"))
-    for sub, files in (("Common", ["Base", "Bytes"]), ("C04", ["TextModel"])):
+    for sub in ("Common", "C04"):
         os.makedirs(os.path.join(ov, sub), exist_ok=True)
-        for f in files:
-            for ext in (".vo", ".glob", ".v"):
-                src = os.path.join(core.COQDIR, "theories", sub, f + ext)
-                if os.path.exists(src):
-                    shutil.copy(src, os.path.join(ov, sub, f + ext))
+        for fn in os.listdir(os.path.join(core.COQDIR, "theories", sub)):
+            if fn.endswith(".vo"):
+                shutil.copy(os.path.join(core.COQDIR, "theories", sub, fn), os.path.join(ov, sub, fn))
     for f in os.listdir(os.path.join(core.COQDIR, "theories", "C02")):
         if f.endswith(".v"):
             shutil.copy(os.path.join(core.COQDIR, "theories", "C02", f), os.path.join(ov, "C02", f))
@@ -1314,15 +1368,19 @@ def regenerate(ctx):
         return False
     core.COQFLAGS[:] = flags          # the cases of this run are evaluated against the regenerated model
     bad = []
-    for m in _proof_files():
+    pf = _proof_files()
+    pf = [m for m in pf if m == "GenTie"] + [m for m in pf if m != "GenTie"]       # the tie lemmas first
+    for m in pf:
         rc, txt = core.coqc_file(os.path.join(ov, "C02", m + ".v"), 900, flags)
         ctx.obligation("regenerated Gen.v: C02/%s.v re-proved" % m, rc == 0, txt[-600:])
         if rc != 0:
             bad.append((m, txt[-1200:]))
             break
     if bad:
-        ctx.violation("the theorems of C02/%s.v no longer hold for the integer functions regenerated from the source "
-                      "(_process_slice/_slice2rows/_fix_range/_get_slice_nrows changed)" % bad[0][0],
+        ctx.violation("C02/%s.v is no longer provable over the definitions regenerated from the source (Gen.v: _process_slice, "
+                      "_slice2rows, _fix_range, _get_slice_nrows, _get_rows2read, Records::process_slice, the decision trees of "
+                      "Recfile.read / SFile.read)%s" % (bad[0][0], ": the model is no longer what the source says (tie lemma)"
+                                                         if bad[0][0] == "GenTie" else ""),
                       {"kind": "proof-regenerated", "file": bad[0][0], "log_tail": bad[0][1],
                        "no_longer_checks": "C02/Properties.v over the regenerated Gen.v"}, found_input=False)
     return False
